@@ -340,7 +340,10 @@ def _snapshot(d):
     return out
 
 
-def real_plugin_run(gen, text, expect_ok):
+WARMUP = 'version: "3"\nstruct Warm { a @0: u8, }\nimpl can for Warm {\n    id: 1,\n    device: "ecu",\n}\n'
+
+
+def real_plugin_run(gen, text, expect_ok, warmup=False):
     """In a subprocess-free but unstubbed way: fresh import state is not needed because nothing is stubbed here."""
     import subprocess
     code = (
@@ -350,10 +353,15 @@ def real_plugin_run(gen, text, expect_ok):
         "from fcp.error import Logger\n"
         "from fcp.codegen import GeneratorManager\n"
         "from fcp.verifier import make_general_verifier\n"
+        "if %r:\n"
+        "    import tempfile, shutil\n"
+        "    w = tempfile.mkdtemp(prefix='verif_warm_')\n"
+        "    GeneratorManager(make_general_verifier()).generate(%r, None, None, get_fcp_from_string(%r, Logger({})).unwrap(), w)\n"
+        "    shutil.rmtree(w, ignore_errors=True)\n"
         "fcp = get_fcp_from_string(%r, Logger({})).unwrap()\n"
         "r = GeneratorManager(make_general_verifier()).generate(%r, None, None, fcp, sys.argv[1])\n"
         "print(json.dumps({'ok': bool(getattr(r, 'is_ok', lambda: False)()), 'err': bool(getattr(r, 'is_err', lambda: False)())}))\n"
-    ) % ([p for p in sys.path if "/plugins/" in p or p.endswith("/src")], text, gen)
+    ) % ([p for p in sys.path if "/plugins/" in p or p.endswith("/src")], bool(warmup), gen, WARMUP, text, gen)
     d = tempfile.mkdtemp(prefix="verif_c10_")
     try:
         open(os.path.join(d, "keep.txt"), "w").write("pre-existing")
